@@ -6,6 +6,7 @@ import (
 	"io"
 	"strings"
 
+	"github.com/freeconf/yang/fc"
 	"github.com/freeconf/yang/meta"
 	"github.com/freeconf/yang/node"
 	"github.com/freeconf/yang/patch/xml"
@@ -77,6 +78,9 @@ func (x *XmlNode) Child(r node.ChildRequest) (node.Node, error) {
 			ndx = x.Find(ndx+1, r.Meta)
 		}
 		return &XmlNode{XMLName: x.XMLName, Nodes: found}, nil
+	}
+	if len(x.Nodes[ndx].Nodes) == 0 && x.Nodes[ndx].ContentTrim() != "" {
+		return nil, fmt.Errorf("%w. expected elements, not text, inside container %s", fc.BadRequestError, r.Meta.Ident())
 	}
 	return x.Nodes[ndx], nil
 }
